@@ -86,6 +86,13 @@ func buildTracked(n Node, path string, all *[]*mStack) (any, *mStack) {
 		}
 		ms.elems = append(ms.elems, me)
 	}
+	// settings that the statement does not name: applied once the content is in
+	if n.NoNest {
+		s.SetNoNesting(true)
+	}
+	if n.Amb != 0 {
+		ApplyAmbient(s, n.Amb&^AmbErr) // (Err() after Defrag is part of the statement)
+	}
 	return wrapStack(s, n.Wrap), ms
 }
 
@@ -475,7 +482,7 @@ func genC19(t *rapid.T, tier Tier) C19Case {
 	genStack = func(depth int) Node {
 		n := Node{T: "stack", Kind: rapid.SampledFrom(stackKinds).Draw(t, "kind"),
 			NegIdx: rapid.Bool().Draw(t, "negidx"), FwdIdx: rapid.IntRange(0, 3).Draw(t, "fwdidx") == 0,
-			Paren: rapid.Bool().Draw(t, "paren"), Amb: drawAmbient(t, true)}
+			Paren: rapid.Bool().Draw(t, "paren"), Amb: drawAmbient(t, true), NoNest: rapid.IntRange(0, 4).Draw(t, "nonest-after") == 0}
 		if depth > 0 {
 			n.Wrap = rapid.SampledFrom([]int{0, 0, WrapAlias, WrapPtr}).Draw(t, "wrap")
 		}
